@@ -192,8 +192,21 @@ fn mutate_json(rng: &mut Rng, text: &str) -> (String, String) {
                 return (text.to_string(), "none".into());
             }
             let k = cands[rng.below(cands.len())];
-            let (head, _) = lines[k].split_once(':').unwrap();
+            let (head, tail) = lines[k].split_once(':').unwrap();
             let comma = if lines[k].trim_end().ends_with(',') { "," } else { "" };
+            if rng.chance(1, 2) {
+                // a number close to the valid one: off by a little, or the other sign
+                if let Ok(n) = tail.trim().trim_end_matches(',').parse::<i64>() {
+                    let m = match rng.below(4) {
+                        0 => n.wrapping_neg(),
+                        1 => n.wrapping_add(rng.range(1, 12)),
+                        2 => n.wrapping_sub(rng.range(1, 12)),
+                        _ => n.wrapping_abs().wrapping_add(rng.range(1, 12)).wrapping_neg(),
+                    };
+                    lines[k] = format!("{}: {}{}", head, m, comma);
+                    return (lines.join("\n"), "nudge-number".to_string());
+                }
+            }
             lines[k] = format!("{}: {}{}", head, rng.pick(&EXTREME[..]), comma);
             "extreme-number"
         }
@@ -388,8 +401,19 @@ fn gen_inputs(p: &Params, rng: &mut Rng, k: u64, out: &mut Vec<Input>) {
                         out.push(Input { kind: "annotation-json".into(), mutation: name, files: f, main: "a.json".into() });
                     }
                 }
-                let list = json!([{"@type": "Annotation", "@id": "n1", "target": {"@type": "TextSelector", "resource": "r", "offset": {"@type": "Offset", "begin": {"@type": "BeginAlignedCursor", "value": 0}, "end": {"@type": "EndAlignedCursor", "value": 0}}}, "data": [{"@type": "AnnotationData", "set": "s", "key": "k", "value": {"@type": "Int", "value": 3}}]},
-                                  {"@type": "Annotation", "@id": "n2", "target": {"@type": "AnnotationSelector", "annotation": "n1", "offset": {"@type": "Offset", "begin": {"@type": "BeginAlignedCursor", "value": 1}, "end": {"@type": "EndAlignedCursor", "value": -1}}}, "data": []}]);
+                // an annotation in the middle of the text and one relative to it, with cursors around the valid range
+                let cur = |rng: &mut Rng| -> Value {
+                    let v = rng.range(-13, 13);
+                    if rng.chance(1, 2) { json!({"@type": "EndAlignedCursor", "value": v}) } else { json!({"@type": "BeginAlignedCursor", "value": v}) }
+                };
+                let (c1, c2) = (cur(rng), cur(rng));
+                let list = json!([{"@type": "Annotation", "@id": "n1", "target": {"@type": "TextSelector", "resource": "r", "offset": {"@type": "Offset", "begin": {"@type": "BeginAlignedCursor", "value": 6}, "end": {"@type": "BeginAlignedCursor", "value": 11}}}, "data": [{"@type": "AnnotationData", "set": "s", "key": "k", "value": {"@type": "Int", "value": 3}}]},
+                                  {"@type": "Annotation", "@id": "n2", "target": {"@type": "AnnotationSelector", "annotation": "n1", "offset": {"@type": "Offset", "begin": c1, "end": c2}}, "data": []}]);
+                {
+                    let mut f = BTreeMap::new();
+                    f.insert("anns.json".to_string(), serde_json::to_string_pretty(&list).unwrap_or_default());
+                    out.push(Input { kind: "annotate-from-file".into(), mutation: "relative-cursor-sweep".into(), files: f, main: "anns.json".into() });
+                }
                 let t = serde_json::to_string_pretty(&list).unwrap_or_default();
                 for _ in 0..4 {
                     let (m, name) = mutate_json(rng, &t);
